@@ -793,8 +793,10 @@ def media_label_scenarios(repo):
             return any(mentions_payload(x, seen) for x in v)
         return False
 
+    fetched = []
+
     def run(cell, domains, scenario):
-        hooks = {"method:getKeysFor": lambda itp, recv, a, k, env, d, e: (itp.apply(a[1], [a[0], ("dict", {})], {}, env, d, e), C_NONE)[1],
+        hooks = {"method:getKeysFor": lambda itp, recv, a, k, env, d, e: (fetched.append(scenario), itp.apply(a[1], [a[0], ("dict", {})], {}, env, d, e), C_NONE)[-1],
                  "ext:manager.session_exists": lambda *a: ("c", True), "ext:*.isEmpty": lambda *a: ("c", False), "anymethod:isEmpty": lambda *a: ("c", False),
                  "ext:*.getUsername": lambda *a: ("c", OWN)}
         it, layer, cls = mk_layer(repo, SEND, "AxolotlSendLayer", cell, domains, hooks)
@@ -844,6 +846,8 @@ def media_label_scenarios(repo):
             carrying = [x for x in r["encs"] if x[2]]
             n_payload += len(carrying)
             if not carrying:
+                if scenario == "retry" and "retry" not in fetched:
+                    return None         # the retry never reached the key fetch this scenario answers: not decided
                 bad.append("no envelope with the payload goes down%s" % (" (raises %s)" % r["raised"][:50] if r["raised"] else ""))
             for typ, mt, _p in carrying:
                 if mt != ("c", "image"):
